@@ -156,7 +156,8 @@ func runCLIFull(dir, src string, p *spec.Program, o h.Opts, useStdin, useOutFile
 	}
 	outFile := filepath.Join(dir, "out.inc")
 	if useOutFile {
-		os.WriteFile(outFile, []byte("stale content that must be replaced\n"), 0o644)
+		// an existing, much longer file: whatever was in it must be gone afterwards
+		os.WriteFile(outFile, []byte(strings.Repeat("StaleLabel_from_an_earlier_compilation::\n\tstale_command 1, 2\n\treturn\n\n", 3000)), 0o644)
 		args = append(args, "-o", outFile)
 	}
 	cmd := exec.Command(bin, args...)
